@@ -116,7 +116,7 @@ func (a *AvahiProvider) start(autoReconnect bool, cb api.MdnsResolveCB, reconnec
 
 	if !a.listenerRunning {
 		a.listenerRunning = true
-		go a.chanListener(cb)
+		go a.chanListener(cb, a.shutdownChan, a.addServiceChan, a.removeServiceChan)
 	}
 
 	// connected again, a disconnect from now on needs a new reconnect loop
@@ -307,16 +307,25 @@ func (a *AvahiProvider) attemptReconnect(cb api.MdnsResolveCB, serviceData *mdns
 }
 
 // listen to service changes and shutdown
-func (a *AvahiProvider) chanListener(cb api.MdnsResolveCB) {
+//
+// Shutdown closes the channels and sets the fields to nil, so the listener gets the
+// channels it has to use when it is started
+func (a *AvahiProvider) chanListener(cb api.MdnsResolveCB, shutdownChan chan struct{}, addServiceChan, removeServiceChan chan avahi.Service) {
 	for {
 		select {
-		case <-a.shutdownChan:
+		case <-shutdownChan:
 			return
-		case service := <-a.addServiceChan:
+		case service, ok := <-addServiceChan:
+			if !ok {
+				return
+			}
 			if err := a.processService(service, false, cb); err != nil {
 				logging.Log().Debug("mdns: avahi -", err)
 			}
-		case service := <-a.removeServiceChan:
+		case service, ok := <-removeServiceChan:
+			if !ok {
+				return
+			}
 			if err := a.processService(service, true, cb); err != nil {
 				logging.Log().Debug("mdns: avahi -", err)
 			}
